@@ -8,12 +8,14 @@
 package main
 
 import (
+	"context"
 	"encoding/json"
 	"errors"
 	"fmt"
 	"os"
 	"reflect"
 	"strings"
+	"time"
 
 	"github.com/mattn/anko/env"
 	"github.com/mattn/anko/vm"
@@ -716,11 +718,17 @@ type Host struct {
 	hid int
 }
 
-func (h Host) Val(x int64) int64    { return h.A + x }
-func (h *Host) Ptr(x int64) int64   { h.A += x; return h.A }
-func (h Host) Two() (int64, string) { return h.A, h.B }
-func (h Host) Err() (int64, error)  { return 0, errors.New("host failure") }
-func (h Host) Var(xs ...int64) int  { return len(xs) }
+func (h Host) Val(x int64) int64                     { return h.A + x }
+func (h *Host) Ptr(x int64) int64                    { h.A += x; return h.A }
+func (h Host) Two() (int64, string)                  { return h.A, h.B }
+func (h Host) Err() (int64, error)                   { return 0, errors.New("host failure") }
+func (h Host) Var(xs ...int64) int                   { return len(xs) }
+func (h Host) VarCh(c chan interface{}, xs ...int64) { c <- len(xs) }
+
+type Op func(int64) int64
+type Labels map[string]string
+type Counter *int64
+type IntList []int64
 
 type scen struct {
 	name, src string
@@ -827,6 +835,20 @@ func scenarios(out string) {
 	fld("args-are-values-deref", "p = &hp.A\nfunc bump() { hp.A = 99; return 5 }\ncol(*p, bump())", wantV([]interface{}{int64(1), int64(5)}))
 	fld("args-are-values-method", "func bump() { sl[0] = 99; return 5 }\nhv.Var(sl[0], bump())", wantV(int(2)))
 	fld("args-are-values-spread-last", "func bump() { sl[0] = 99; return [5] }\npair2(sl[0], bump()...)", wantV([]int64{1, 5}))
+	// parameters of DEFINED types with the underlying type of the value handed over: Go's conversion keeps the map, the pointer target and the function
+	fld("defined-func-type-param", "applyop(gfn, 3)", wantV(int64(4)))
+	fld("defined-map-type-param-same-map", "setlabel(gms)\ngms.k", wantV("v"))
+	fld("defined-ptr-type-param-same-target", "bumpc(gpc)\n*gpc", wantV(int64(8)))
+	fld("defined-slice-type-param-same-storage", "setfirst(gsl)\ngsl[0]", wantV(int64(77)))
+	fld("defined-int-type-param", "dur(gd)", wantV("1.5s"))
+	// go statements reach Go functions with exactly the supplied arguments too: variadic callees, spread calls, methods
+	fld("go-variadic-go-callee", "go colch(gch, 1, 2, 3)\n<-gch", wantV([]interface{}{int64(1), int64(2), int64(3)}))
+	fld("go-spread-variadic-go-callee", "go colch(gch, [1, 2, 3]...)\n<-gch", wantV([]interface{}{int64(1), int64(2), int64(3)}))
+	fld("go-spread-typed-variadic-go-callee", "go sumch(gch, [1, 2, 4]...)\n<-gch", wantV(int64(7)))
+	fld("go-spread-typed-slice-go-callee", "go sumch(gch, sl...)\n<-gch", wantV(int64(3)))
+	fld("go-fixed-go-callee", "go sendch(gch, 5)\n<-gch", wantV(int64(5)))
+	fld("go-method-variadic-spread", "go hv.VarCh(gch, [1, 2]...)\n<-gch", wantV(int(2)))
+	fld("defer-spread-variadic-go-callee", "func() { defer colch(gch, [1, 2, 3]...) }()\n<-gch", wantV([]interface{}{int64(1), int64(2), int64(3)}))
 	fld("method-value-recv", "hv.Val(10)", wantV(int64(12)))
 	fld("method-value-recv-on-ptr", "hp.Val(10)", wantV(int64(11)))
 	fld("method-ptr-recv-on-ptr", "hp.Ptr(1)\nhp.A", wantV(int64(2)))
@@ -892,6 +914,28 @@ func scenarios(out string) {
 		e.Define("gi", func(x int64) int64 { return x })
 		e.Define("pair2", func(a, b int64) []int64 { return []int64{a, b} })
 		e.Define("incr", func(p *int64) { *p++ })
+		gch := make(chan interface{}, 4)
+		e.Define("gch", gch)
+		e.Define("colch", func(c chan interface{}, xs ...interface{}) { c <- append([]interface{}{}, xs...) })
+		e.Define("sumch", func(c chan interface{}, xs ...int64) {
+			var t int64
+			for _, x := range xs {
+				t += x
+			}
+			c <- t
+		})
+		e.Define("sendch", func(c chan interface{}, x int64) { c <- x })
+		e.Define("gfn", func(x int64) int64 { return x + 1 })
+		e.Define("applyop", func(op Op, x int64) int64 { return op(x) })
+		e.Define("gms", map[string]string{"a": "b"})
+		e.Define("setlabel", func(l Labels) { l["k"] = "v" })
+		gc := int64(7)
+		e.Define("gpc", &gc)
+		e.Define("bumpc", func(c Counter) { *c++ })
+		e.Define("gsl", []int64{1, 2})
+		e.Define("setfirst", func(l IntList) { l[0] = 77 })
+		e.Define("gd", int64(1500000000))
+		e.Define("dur", func(d time.Duration) string { return d.String() })
 		e.Define("setname", func(p *string) { *p = "renamed" })
 		e.Define("sameaddr", func(p *int64) bool { return p == &hp.A })
 		if s.setup != nil {
@@ -905,7 +949,10 @@ func scenarios(out string) {
 					err = fmt.Errorf("PANIC %v", r)
 				}
 			}()
-			res, err = vm.Execute(e, nil, s.src)
+			// (under a deadline: a scenario that waits for a Go call that never happens is a wrong outcome, not a dead harness)
+			ctx, cancel := context.WithTimeout(context.Background(), 10*time.Second)
+			defer cancel()
+			res, err = vm.ExecuteContext(ctx, e, nil, s.src)
 		}()
 		sum.Cases++
 		msg := ""
